@@ -4,7 +4,7 @@ from checks import proc_common as pc
 ID = "C11"
 LEVEL = "proof"
 MODULE = "NrDaemon.Props.C11"
-PREFIX = ('C11', 'C01 proc: accepted data was neither', 'C01 proc: the final flush', 'C01 proc: more was acknowledged', 'C12 stop')
+PREFIX = ('C11', 'C01 proc: accepted data was neither', 'C01 proc: the final flush', 'C01 proc: more was acknowledged', 'C12 stop', 'C01 split', 'C01 reservoir')
 RULE = ("engine proc: the real Processor in lock-step (trackProgress) with a scripted collector client in which every request parks "
         "until answered; histories of 1-3 applications: transactions (real flatbuffers through processBinary/AggregateInto), harvest "
         "triggers with every mask (all, default data, single and combined event categories), replies in any order relative to later "
@@ -38,11 +38,14 @@ def plan(ctx):
             ops.append("trig recv")
         ops += ["trig procclose", "trig drain"]
         stop.append(("stop%d" % i, ops))
-    return [("corpus", corpus(ID)), ("gen", seqs), ("stop", stop)]
+    # the final flush of a large transaction-event reservoir is sent as two halves: they must partition it, whatever its size
+    from checks import gen_containers as gcn
+    halves = [("sc%d" % i, gcn.res_split_carry(rng)) for i in range(20 if tier == "quick" else 600)]
+    return [("corpus", corpus(ID)), ("gen", seqs), ("stop", stop), ("halves", halves)]
 
 
 def run(ctx, bname, seqs):
-    if bname == "stop":
+    if bname in ("stop", "halves"):
         from lib import vlib
         rs = vlib.run_sequences(seqs, ctx["work"], tag=bname)
         for r in rs:
@@ -52,12 +55,16 @@ def run(ctx, bname, seqs):
 
 
 def tags(r):
+    if r.ops and r.ops[0].startswith("res "):
+        return {"res:split"}
     if r.ops and r.ops[0].startswith("trig "):
         return {"trig:procclose"}
     return pc.tags_proc(r)
 
 
 def nontrivial(r):
+    if r.ops and r.ops[0].startswith("res "):
+        return any(o.startswith("res split") for o in r.ops)
     if r.ops and r.ops[0].startswith("trig "):
         return any(il and "holding=" in il and "holding=0" not in il for il in r.impl)
     return pc.nontrivial_proc(r)
